@@ -37,7 +37,7 @@
   many hosts streaming at once                              relay_lossless_any_interleaving (+ _index_)
   -N                                                        relay_verbatim_with_N
   the loop runs until BOTH streams are at EOF               poll_loop_left_only_at_eof_of_both, handler_closes_exactly_at_eof
-  a worker is done only after its output is delivered (C03) worker_done_has_delivered_everything
+  a worker is done only after its output is delivered (C03) worker_done_has_delivered_everything, worker_done_equals_runStream
   a host that is given up on (timeout, poll error)          abandoned_stream_relays_what_was_read, worker_delivers_what_it_read
   a host whose command never starts                         unstarted_host_writes_nothing
   pdcp/rpdcp: remote stderr through the same functions      rcp_stderr_relayed, pdcp_success_reads_no_stderr
@@ -538,6 +538,26 @@ theorem worker_done_has_delivered_everything (cfg : Cfg) (host t0host : Bytes) {
   rw [hpe, List.append_nil] at hxe
   subst hxo; subst hxe
   exact ⟨ho, he⟩
+
+/-- THE BRIDGE TO THE PER-STREAM VIEW (`runStream`, `Relay/Interleave.lean`'s `LEv.feed .. ++ [LEv.finish]`, which
+    property C03's end-to-end LTS composes with): a worker whose loop was left at EOF of both streams has written,
+    per descriptor, exactly what `runStream` writes for ANY script carrying the same bytes -- so a worker run may
+    be replaced by its two per-stream runs, whatever the polls, caps and interruptions were. -/
+theorem worker_done_equals_runStream (cfg : Cfg) (host t0host : Bytes) {sizeMeta : Nat}
+    (hg : growthOk sizeMeta = true) {b0 : PBuf} (hb0 : mkFifoBuf sizeMeta = some b0) (evs : List PEv)
+    (hdO : Spec.Dom05 (markerOf true) (acceptedOf false evs false) = true)
+    (hdE : Spec.Dom05 (markerOf false) (acceptedOf true evs false) = true)
+    (hleft : (evs.foldl (pollStep fifoOps cfg host) (Worker.init b0)).loopLeft = true)
+    (scriptO scriptE : List Bytes) (hO : scriptO.flatten = acceptedOf false evs false)
+    (hE : scriptE.flatten = acceptedOf true evs false) :
+    writtenBy (workerRun fifoOps cfg host t0host b0 evs) false =
+      written (runStream fifoOps cfg host t0host 1 true b0 scriptO).ems ∧
+    writtenBy (workerRun fifoOps cfg host t0host b0 evs) true =
+      written (runStream fifoOps cfg host t0host 2 false b0 scriptE).ems := by
+  obtain ⟨h1, h2⟩ := worker_done_has_delivered_everything cfg host t0host hg hb0 evs hdO hdE hleft
+  rw [h1, h2, ← hO, ← hE]
+  exact ⟨(relay_lossless cfg host t0host 1 true hg hb0 scriptO (hO ▸ hdO)).symm,
+         (relay_lossless cfg host t0host 2 false hg hb0 scriptE (hE ▸ hdE)).symm⟩
 
 /-- non-vacuity: "ab\n" then "c" arrive on stdout, "e\n" on stderr; polls with a short read of 1 byte, a
     spurious wake-up, an interrupted poll; both sides close; the loop is left and everything is written -/
